@@ -82,6 +82,30 @@ MUTANTS = [
     M("benign-mut-truncate-reordered", RET,
       "        shareids = shareids[:self._required_shares]\n        shares = shares[:self._required_shares]\n",
       "        shares = shares[:self._required_shares]\n        shareids = shareids[:self._required_shares]\n", None),
+    # ---- C36.5  mutable retrieve: what is decoded is the component _validate_block validated, under that share's number
+    M("mut-decodes-the-salts", RET, "        share_and_shareids = [(k, v[0]) for k, v in blocks_and_salts.items()]",
+      "        share_and_shareids = [(k, v[1]) for k, v in blocks_and_salts.items()]", "C36.5"),
+    M("mut-validate-returns-salt-first", RET, "        return {reader.shnum: (block, salt)}", "        return {reader.shnum: (salt, block)}", "C36.5"),
+    M("mut-validated-block-filed-under-segnum", RET, "        return {reader.shnum: (block, salt)}", "        return {segnum: (block, salt)}", "C36.5"),
+    M("mut-decodes-whole-entries", RET, "        share_and_shareids = [(k, v[0]) for k, v in blocks_and_salts.items()]",
+      "        share_and_shareids = [(k, v) for k, v in blocks_and_salts.items()]", "C36.5"),
+    M("benign-mut-blocks-by-dict-comprehension", RET,
+      "        share_and_shareids = [(k, v[0]) for k, v in blocks_and_salts.items()]\n        d2 = dict(share_and_shareids)\n",
+      "        d2 = {shnum: pair[0] for shnum, pair in blocks_and_salts.items()}\n", None),
+    M("benign-mut-block-unpacked-in-loop-target", RET,
+      "        share_and_shareids = [(k, v[0]) for k, v in blocks_and_salts.items()]\n        d2 = dict(share_and_shareids)\n"
+      "        shareids = []\n        shares = []\n        for shareid, share in d2.items():\n",
+      "        shareids = []\n        shares = []\n        for shareid, (share, _salt) in blocks_and_salts.items():\n", None),
+    M("mut-salt-unpacked-as-block-in-loop-target", RET,
+      "        share_and_shareids = [(k, v[0]) for k, v in blocks_and_salts.items()]\n        d2 = dict(share_and_shareids)\n"
+      "        shareids = []\n        shares = []\n        for shareid, share in d2.items():\n",
+      "        shareids = []\n        shares = []\n        for shareid, (_salt, share) in blocks_and_salts.items():\n", "C36.5"),
+    M("benign-mut-validate-named-result", RET, "        return {reader.shnum: (block, salt)}",
+      "        shnum = reader.shnum\n        validated = (block, salt)\n        return {shnum: validated}", None),
+    M("vanish-validate-block", RET, "    async def _validate_block(self, results, segnum, reader, server, started):",
+      "    async def _validate_blockX(self, results, segnum, reader, server, started):", "ANALYSIS-ERROR",
+      edits=[(RET, "            d.addCallback(self._validate_block, segnum, reader, reader.server, started)",
+              "            d.addCallback(self._validate_blockX, segnum, reader, reader.server, started)")]),
     # ---- C36.6  (the codec object is shared and the zfec work is deferred: per-call data stays in the call's frame)
     M("decode-inputs-stashed-on-instance", CODEC, DECODE_TAIL,
       "        self._shares = some_shares\n        self._shareids = [int(s) for s in their_shareids]\n"
